@@ -66,7 +66,34 @@ impl Case {
                 }
             }
         }
+        if self.fault == "after-earlier-write" && self.k == 1 {
+            if self.png {
+                s.fit_width = Some(300);
+                s.fit_height = Some(120);
+            } else {
+                s.margin = Some(s.margin_value() + 3);
+            }
+        }
         s
+    }
+    /// what the same process writes to another path right before the measured call (family "after-earlier-write")
+    fn earlier(&self) -> (Config, Spec) {
+        let mut cfg = self.config();
+        let mut s = self.spec();
+        match self.k {
+            0 => {}
+            1 => {
+                // same symbol, same options except the one that decides the size
+                if self.png {
+                    s.fit_height = None;
+                } else {
+                    s.margin = Some(s.margin_value() - 3);
+                }
+            }
+            2 => cfg.version = Some((self.version + 7).min(40)),
+            _ => s.module_color = Some(crate::render::Colour::Rgb([9, 99, 199])),
+        }
+        (cfg, s)
     }
     fn config(&self) -> Config {
         let mut rng = Rng::new(self.seed);
@@ -108,6 +135,10 @@ pub fn jobs(ctx: &Ctx) -> Vec<Case> {
                     push(f, 0, 0, 0);
                 }
                 push("existing-longer-short-writes", 0, 0, 512);
+                // the same process has just written another rendering (same / nearly the same / bigger / recoloured)
+                for kk in 0..4 {
+                    push("after-earlier-write", 0, kk, 0);
+                }
                 for f in REAL_FAULTS {
                     push(f, 0, 0, 0);
                 }
@@ -273,6 +304,9 @@ pub fn observe(ctx: &Ctx, st: &mut Stats, c: &Case, idx: usize) {
                     return;
                 }
                 st.count("ok_files_compared_with_in_memory_rendering", 1);
+                if c.fault == "after-earlier-write" {
+                    st.count("writes_after_an_earlier_write_in_the_same_process_exact", 1);
+                }
                 if c.fault.starts_with("existing-") {
                     st.count("preexisting_destinations_overwritten_exactly", 1);
                 }
@@ -319,6 +353,19 @@ pub fn child_main(arg: &str, target: &str) -> i32 {
         _ => return 4,
     };
     let spec = c.spec();
+    if c.fault == "after-earlier-write" {
+        let (cfg0, spec0) = c.earlier();
+        let qr0 = match adapter::build(&cfg0) {
+            Outcome::Ok(q) => q,
+            _ => return 4,
+        };
+        let prev = format!("{target}.earlier");
+        let r0 = adapter::guarded(|| if c.png { spec0.image_builder().to_file(&qr0, &prev).is_ok() } else { spec0.svg_builder().to_file(&qr0, &prev).is_ok() });
+        if r0 != Ok(true) {
+            println!("PANIC earlier write failed: {r0:?}");
+            return 0;
+        }
+    }
     let r = adapter::guarded(|| -> (Vec<u8>, Result<(), ConvertError>) {
         if c.png {
             let b = spec.image_builder();
@@ -359,11 +406,11 @@ pub fn run(ctx: &Ctx) -> Report {
     st.sets.remove("unreached");
     let mut rep = Report::new(
         st,
-        "cases = {SVG, PNG} x versions {1,7,40} (thorough: all 40) x option sets x fault classes: none; destination already exists (6 MiB longer file, 5-byte shorter file, symbolic link to a longer file, longer file + short writes): Ok must leave exactly the rendering, no stale tail; real faults: missing directory (ENOENT), path is a directory (EISDIR), parent is a regular file (ENOTDIR), over-long name (ENAMETOOLONG), /dev/full (ENOSPC at write time); injected by an LD_PRELOAD shim scoped to the case's scratch directory: create fails with EACCES/EROFS/EMFILE, first write fails with ENOSPC/EIO/EDQUOT, k-th write of a chunked stream fails (k in 2,3,5,9; 1024-byte chunks; 7-byte chunks), every write short (7 / 4096 bytes), EINTR on every other write (with and without short writes); each case runs to_file in a child process; the shim logs every interception and every fault actually DELIVERED; oracle: Ok(()) => the file's bytes equal the in-memory rendering computed in the same child; a delivered hard fault => Err(_) converted through ConvertError::from, normal exit, no panic; only benign perturbations => Ok with full content; a configured fault that was never reached is counted separately and is not a pass for the error half; distinct key = case; every case non-trivial",
+        "cases = {SVG, PNG} x versions {1,7,40} (thorough: all 40) x option sets x fault classes: none; destination already exists (6 MiB longer file, 5-byte shorter file, symbolic link to a longer file, longer file + short writes): Ok must leave exactly the rendering, no stale tail; the same process has just written another rendering to another path (identical / same symbol with one size-deciding option changed / bigger symbol / other colour); real faults: missing directory (ENOENT), path is a directory (EISDIR), parent is a regular file (ENOTDIR), over-long name (ENAMETOOLONG), /dev/full (ENOSPC at write time); injected by an LD_PRELOAD shim scoped to the case's scratch directory: create fails with EACCES/EROFS/EMFILE, first write fails with ENOSPC/EIO/EDQUOT, k-th write of a chunked stream fails (k in 2,3,5,9; 1024-byte chunks; 7-byte chunks), every write short (7 / 4096 bytes), EINTR on every other write (with and without short writes); each case runs to_file in a child process; the shim logs every interception and every fault actually DELIVERED; oracle: Ok(()) => the file's bytes equal the in-memory rendering computed in the same child; a delivered hard fault => Err(_) converted through ConvertError::from, normal exit, no panic; only benign perturbations => Ok with full content; a configured fault that was never reached is counted separately and is not a pass for the error half; distinct key = case; every case non-trivial",
     );
     rep.level = "fault_enumeration";
-    rep.expected_sets = vec![("fault_classes", 14), ("fault_class_x_format", 28)];
-    rep.required_sets = vec![("fault_classes", 14), ("fault_class_x_format", 28)];
+    rep.expected_sets = vec![("fault_classes", 15), ("fault_class_x_format", 30)];
+    rep.required_sets = vec![("fault_classes", 15), ("fault_class_x_format", 30)];
     rep.min_evaluations = 100;
     rep.assumptions = vec![
         "faults are injected at the libc boundary (open*/creat/write); Rust std and tiny-skia reach the kernel through these symbols (checked by the shim's interception log)".into(),
